@@ -16,6 +16,8 @@ pub use config::*;
 
 mod pp;
 use pp::{preprocess, PpResult};
+#[cfg(feature = "verif")]
+pub use pp::{Directive, DirectiveType};
 mod resolve_inputs;
 use resolve_inputs::resolve_inputs;
 mod scan_dir;
@@ -90,6 +92,8 @@ impl Txtpp {
         };
 
         let result = runtime.run_internal();
+        #[cfg(feature = "verif")]
+        crate::verif::finished(result.is_ok());
         if result.is_err() {
             let _ = runtime
                 .progress
@@ -140,6 +144,15 @@ impl Txtpp {
                 Err(TryRecvError::Empty) => {
                     if self.progress.is_done() {
                         break;
+                    }
+                    #[cfg(feature = "verif")]
+                    match crate::verif::idle(false) {
+                        crate::verif::Idle::Sleep => {}
+                        crate::verif::Idle::Continue => continue,
+                        crate::verif::Idle::Abort => {
+                            return Err(Report::new(TxtppError)
+                                .attach_printable("verif: aborted by controller"));
+                        }
                     }
                     // no data available, wait for a bit
                     std::thread::sleep(std::time::Duration::from_millis(100));
@@ -244,7 +257,11 @@ impl Txtpp {
             .print_status(verbs::SCANNING, &dir.to_string(), Color::Yellow, true);
         let send = self.send.clone();
         log::info!("scanning directory: {dir}");
+        #[cfg(feature = "verif")]
+        let verif_token = crate::verif::TaskToken::new(dir.as_path(), crate::verif::TaskKind::Scan);
         self.threadpool.execute(move || {
+            #[cfg(feature = "verif")]
+            let _verif_guard = verif_token.begin();
             let result = scan_dir(&dir, recursive);
             send.send(TaskResult::ScanDir(result))
                 .expect("cannot send result")
@@ -278,7 +295,18 @@ impl Txtpp {
         let mode = self.config.mode.clone();
         let trailing_newline = self.config.trailing_newline;
         log::info!("processing file: {file}");
+        #[cfg(feature = "verif")]
+        let verif_token = crate::verif::TaskToken::new(
+            file.as_path(),
+            if is_first_pass {
+                crate::verif::TaskKind::FirstPass
+            } else {
+                crate::verif::TaskKind::SecondPass
+            },
+        );
         self.threadpool.execute(move || {
+            #[cfg(feature = "verif")]
+            let _verif_guard = verif_token.begin();
             let result = preprocess(&shell, &file, mode, is_first_pass, trailing_newline);
             send.send(TaskResult::Preprocess(result))
                 .expect("cannot send result")
@@ -300,6 +328,12 @@ impl Drop for Txtpp {
                 Err(TryRecvError::Empty) => {
                     if self.progress.is_done() || self.progress.has_error {
                         break;
+                    }
+                    #[cfg(feature = "verif")]
+                    match crate::verif::idle(true) {
+                        crate::verif::Idle::Sleep => {}
+                        crate::verif::Idle::Continue => continue,
+                        crate::verif::Idle::Abort => break,
                     }
                     // no data available, wait for a bit
                     std::thread::sleep(std::time::Duration::from_millis(100));
